@@ -33,6 +33,8 @@ pub struct Inner {
 #[derive(Clone)]
 pub struct Sched {
     inner: Arc<Inner>,
+    /// how long the controller waits for the running worker to park again
+    pub stall_ms: u64,
 }
 
 /// install the global hook callbacks once per process
@@ -76,8 +78,15 @@ impl Inner {
 }
 
 impl Sched {
+    pub fn with_stall(ms: u64) -> Self {
+        let mut s = Self::new();
+        s.stall_ms = ms;
+        s
+    }
+
     pub fn new() -> Self {
         Self {
+            stall_ms: 200,
             inner: Arc::new(Inner {
                 st: Mutex::new(State {
                     waiting: BTreeMap::new(),
@@ -165,8 +174,13 @@ impl Sched {
             // wait until every live worker is parked (or none is live)
             let mut waited = 0;
             while !(st.granted.is_none() && st.waiting.len() == st.live.len()) {
-                let r = self.inner.cv.wait_for(&mut st, Duration::from_millis(200));
+                let r = self.inner.cv.wait_for(&mut st, Duration::from_millis(self.stall_ms));
                 if r.timed_out() {
+                    // a worker that neither parks nor finishes is taken to be blocked on a lock held by
+                    // a parked worker: go on with the parked ones (it will park once it gets the lock)
+                    if self.stall_ms < 200 && st.granted.is_none() && !st.waiting.is_empty() {
+                        break;
+                    }
                     waited += 1;
                     if waited > 50 {
                         // a worker blocks outside a hook: fall back to free running
